@@ -131,6 +131,22 @@ impl Client {
     pub fn new_v6() -> Option<Client> {
         UdpSocket::bind("[::1]:0").ok().map(|sock| Client { sock })
     }
+    /// Try to enlarge the receive buffer beyond rmem_max (needs CAP_NET_ADMIN); returns the effective size.
+    pub fn force_rcvbuf(&self, bytes: i32) -> i32 {
+        use std::os::fd::AsRawFd;
+        let fd = self.sock.as_raw_fd();
+        unsafe {
+            let v = bytes;
+            let p = &v as *const i32 as *const libc::c_void;
+            if libc::setsockopt(fd, libc::SOL_SOCKET, libc::SO_RCVBUFFORCE, p, 4) != 0 {
+                libc::setsockopt(fd, libc::SOL_SOCKET, libc::SO_RCVBUF, p, 4);
+            }
+            let mut got: i32 = 0;
+            let mut len: libc::socklen_t = 4;
+            libc::getsockopt(fd, libc::SOL_SOCKET, libc::SO_RCVBUF, &mut got as *mut i32 as *mut libc::c_void, &mut len);
+            got
+        }
+    }
     pub fn port(&self) -> u16 {
         self.sock.local_addr().unwrap().port()
     }
